@@ -6,12 +6,12 @@ V=/verif
 OUT=$V/.cache/ocaml
 mkdir -p "$OUT/src"
 STAMP="$OUT/stamp"
-NEW=$(cat $(find $V/coq -name '*.v' | sort) $V/ocaml/driver.ml | sha256sum | cut -d' ' -f1)
+NEW=$(cat $(find $V/coq -name '*.v' | sort) $V/ocaml/*.ml | sha256sum | cut -d' ' -f1)
 if [ -x "$OUT/model_run" ] && [ -f "$STAMP" ] && [ "$(cat $STAMP)" = "$NEW" ]; then exit 0; fi
 find "$OUT/src" -maxdepth 1 -type f -delete
 cd "$OUT/src"
 timeout 600 coqc -Q $V/coq MDK $V/coq/Extract/Extract.v > "$OUT/extract.log" 2>&1 || { cat "$OUT/extract.log"; exit 1; }
-cp $V/ocaml/driver.ml .
-FILES=$(ocamlfind ocamldep -sort *.mli *.ml)
+cp $V/ocaml/drv_*.ml .
+FILES="$(ocamlfind ocamldep -sort *.mli *.ml) $V/ocaml/zz_main.ml"
 timeout 600 ocamlfind ocamlopt -O3 -w -a $FILES -o "$OUT/model_run" > "$OUT/ocaml.log" 2>&1 || { cat "$OUT/ocaml.log"; exit 1; }
 echo "$NEW" > "$STAMP"
